@@ -5,7 +5,8 @@
 (* One top-level project with an option file (combo option `popt`, and a   *)
 (* string option `xopt` that edits add and remove), one subproject `sub`   *)
 (* whose combo option `popt` and boolean option `flag` have yield:true     *)
-(* (the top-level `flag` stays false), and the builtin                     *)
+(* (the top-level `flag` stays false), an integer option `level` whose     *)
+(* declared range (min/max) edits change, and the builtin                  *)
 (* default_library with a per-subproject override sub:default_library.     *)
 (*                                                                          *)
 (* Commands (Commands.md: setup / configure; Build-options.md): Setup(D),  *)
@@ -30,19 +31,24 @@ DlValues == {"shared", "static", "both"}
 DlDefault == "shared"
 XDefault == "xd"
 XValues == {"xv"}
-Keys == {"popt", "xopt", "dl", "subdl", "subpopt", "subflag"}
+Keys == {"popt", "xopt", "dl", "subdl", "subpopt", "subflag", "level"}
+\* the integer option `level`: values are written as text; a declared range [min, max] is modelled by the set of
+\* the three probe values it admits (2 < raised min 4; 8 > lowered max 6; 5 = the declared default, always inside)
+LevelUniverse == {"2", "5", "8"}
+LevelDefault == "5"
 FlagParent == "false"                    \* the top-level flag option is never changed
 EmptyCmd == [k \in Keys |-> None]
 
 \* the option file of the top-level project
-InitFile == [ch |-> {"a", "b", "c"}, def |-> "a", x |-> FALSE]
+InitFile == [ch |-> {"a", "b", "c"}, def |-> "a", x |-> FALSE, lr |-> {"2", "5", "8"}]
 
-NoDir == [exists |-> FALSE, v |-> None, ch |-> {}, x |-> None, dl |-> None, subdl |-> None, sp |-> None, sf |-> None, cmd |-> EmptyCmd]
+NoDir == [exists |-> FALSE, v |-> None, ch |-> {}, x |-> None, dl |-> None, subdl |-> None, sp |-> None, sf |-> None, lv |-> None, lr |-> {}, cmd |-> EmptyCmd]
 
 \* ---- assignments -D ------------------------------------------------------------
 \* D: a function from a subset of Keys to values
-ValidFor(ch, hasx, D) ==
+ValidFor(ch, hasx, lr, D) ==
     /\ ("popt" \in DOMAIN D => D["popt"] \in ch)
+    /\ ("level" \in DOMAIN D => D["level"] \in lr)
     /\ ("xopt" \in DOMAIN D => hasx)
     /\ ("dl" \in DOMAIN D => D["dl"] \in DlValues)
     /\ ("subdl" \in DOMAIN D => D["subdl"] \in DlValues)
@@ -56,6 +62,7 @@ Apply(st, D) ==
                !.subdl = IF "subdl" \in DOMAIN D THEN D["subdl"] ELSE @,
                !.sp = IF "subpopt" \in DOMAIN D THEN D["subpopt"] ELSE @,
                !.sf = IF "subflag" \in DOMAIN D THEN D["subflag"] ELSE @,
+               !.lv = IF "level" \in DOMAIN D THEN D["level"] ELSE @,
                !.cmd = [k \in Keys |-> IF k \in DOMAIN D THEN D[k] ELSE @[k]]]
 
 CmdAsD(cmd) == [k \in {k \in Keys : cmd[k] # None} |-> cmd[k]]
@@ -63,16 +70,18 @@ CmdAsD(cmd) == [k \in {k \in Keys : cmd[k] # None} |-> cmd[k]]
 \* a configuration made from scratch: current defaults of the option file, then the given command line
 Fresh(file, cmd) ==
     Apply([exists |-> TRUE, v |-> file.def, ch |-> file.ch, x |-> IF file.x THEN XDefault ELSE None,
-           dl |-> DlDefault, subdl |-> None, sp |-> None, sf |-> None, cmd |-> EmptyCmd], CmdAsD(cmd))
+           dl |-> DlDefault, subdl |-> None, sp |-> None, sf |-> None, lv |-> LevelDefault, lr |-> file.lr, cmd |-> EmptyCmd], CmdAsD(cmd))
 
 \* the option file is read again: a new option gets its default, a removed one vanishes, a changed choice
 \* list keeps the old value when still valid and otherwise falls back to the new default
 Sync(st, file) ==
     [st EXCEPT !.ch = file.ch,
                !.v = IF file.ch = st.ch \/ st.v \in file.ch THEN st.v ELSE file.def,
-               !.x = IF ~file.x THEN None ELSE IF st.x = None THEN XDefault ELSE st.x]
+               !.x = IF ~file.x THEN None ELSE IF st.x = None THEN XDefault ELSE st.x,
+               !.lr = file.lr,
+               !.lv = IF st.lv \in file.lr THEN st.lv ELSE LevelDefault]
 
-SameValues(s, t) == s.v = t.v /\ s.x = t.x /\ s.dl = t.dl /\ s.subdl = t.subdl /\ s.sp = t.sp /\ s.sf = t.sf
+SameValues(s, t) == s.v = t.v /\ s.x = t.x /\ s.dl = t.dl /\ s.subdl = t.subdl /\ s.sp = t.sp /\ s.sf = t.sf /\ s.lv = t.lv
 
 \* ---- events ----------------------------------------------------------------------
 \* [a, D, k, e, ok]: a = action name; D = assignments; k = key of -U; e = edit; ok = meant to succeed
@@ -84,18 +93,22 @@ EditFile(file, e) ==
       [] e.t = "removex" -> [file EXCEPT !.x = FALSE]
       [] e.t = "choices" -> [file EXCEPT !.ch = e.ch, !.def = e.def]
       [] e.t = "default" -> [file EXCEPT !.def = e.def]
+      [] e.t = "range" -> [file EXCEPT !.lr = e.ch]        \* e.ch: the probe values the new [min, max] admits
 
 \* the recorded command line can be replayed on the current option file
-CmdFits(file, cmd) == ValidFor(file.ch, file.x, CmdAsD(cmd))
+CmdFits(file, cmd) == ValidFor(file.ch, file.x, file.lr, CmdAsD(cmd))
 
 \* is the event enabled (does the model generate it / accept it as meaningful) in this state?
 Enabled(file, st, ev) ==
-    CASE ev.a = "Setup"       -> ~st.exists /\ ev.ok /\ ValidFor(file.ch, file.x, ev.D)
+    CASE ev.a = "Setup"       -> ~st.exists /\ ev.ok /\ ValidFor(file.ch, file.x, file.lr, ev.D)
       [] ev.a = "SetupFail"   -> ~st.exists
-      [] ev.a = "Configure"   -> st.exists /\ ValidFor(st.ch, st.x # None, ev.D) /\ ValidFor(file.ch, file.x, ev.D)
+      [] ev.a = "Configure"   -> st.exists /\ ValidFor(st.ch, st.x # None, st.lr, ev.D) /\ ValidFor(file.ch, file.x, file.lr, ev.D)
       [] ev.a = "ConfigureFail" -> st.exists
+      \* a value outside the range the option file declares now: `meson configure` re-reads an edited option file
+      \* before it looks at -D, so the value must be rejected
+      [] ev.a = "ConfigureBad" -> st.exists /\ "level" \in DOMAIN ev.D /\ ev.D["level"] \notin file.lr
       [] ev.a = "ConfigureU"  -> st.exists /\ (ev.k \in {"subpopt", "subflag"} \/ (ev.k = "subdl" /\ st.subdl # None))
-      [] ev.a = "Reconfigure" -> st.exists /\ ValidFor(st.ch, st.x # None, ev.D) /\ ValidFor(file.ch, file.x, ev.D)
+      [] ev.a = "Reconfigure" -> st.exists /\ ValidFor(st.ch, st.x # None, st.lr, ev.D) /\ ValidFor(file.ch, file.x, file.lr, ev.D)
       [] ev.a = "ReconfigureFail" -> st.exists
       [] ev.a = "Wipe"        -> st.exists /\ CmdFits(file, st.cmd)
       [] ev.a = "Edit"        -> ev.e.t # None /\ EditFile(file, ev.e) # file /\ EditFile(file, ev.e).def \in EditFile(file, ev.e).ch
@@ -104,7 +117,7 @@ Enabled(file, st, ev) ==
 \* the set of allowed <<file', st'>> after the event
 Step(file, st, ev) ==
     CASE ev.a = "Setup" -> {<<file, Apply(Fresh(file, EmptyCmd), ev.D)>>}
-      [] ev.a \in {"SetupFail", "ConfigureFail", "ReconfigureFail"} -> {<<file, st>>}
+      [] ev.a \in {"SetupFail", "ConfigureFail", "ReconfigureFail", "ConfigureBad"} -> {<<file, st>>}
       [] ev.a = "Configure" ->
             LET sy == Sync(st, file)
                 ap == Apply(sy, ev.D)
@@ -123,7 +136,8 @@ Step(file, st, ev) ==
 Proj(st) == [exists |-> st.exists, v |-> st.v, ch |-> st.ch, x |-> st.x, dl |-> st.dl,
              subdl |-> IF st.subdl = None THEN st.dl ELSE st.subdl,
              sp |-> IF st.sp = None THEN st.v ELSE st.sp,
-             sf |-> IF ~st.exists THEN None ELSE IF st.sf = None THEN FlagParent ELSE st.sf]
+             sf |-> IF ~st.exists THEN None ELSE IF st.sf = None THEN FlagParent ELSE st.sf,
+             lv |-> st.lv, cmd |-> st.cmd]
 
 \* ---- event alphabets ---------------------------------------------------------------
 Single(k, v) == (k :> v)
@@ -132,11 +146,13 @@ ChoiceEdits == { [t |-> "choices", ch |-> {"a", "b"}, def |-> "a"], [t |-> "choi
                  [t |-> "choices", ch |-> {"a", "b", "c"}, def |-> "a"] }
 Edits == { [t |-> "addx", ch |-> {}, def |-> None], [t |-> "removex", ch |-> {}, def |-> None] } \cup ChoiceEdits
          \cup { [t |-> "default", ch |-> {}, def |-> "b"], [t |-> "default", ch |-> {}, def |-> "a"] }
+         \cup { [t |-> "range", ch |-> r, def |-> None] : r \in {{"5", "8"}, {"2", "5"}, {"5"}, {"2", "5", "8"}} }
 
 \* every single assignment (and no assignment); the model checker explores all of them
 AllD == {Empty} \cup {Single("popt", v) : v \in PoptUniverse} \cup {Single("xopt", v) : v \in XValues}
         \cup {Single("dl", v) : v \in DlValues} \cup {Single("subdl", v) : v \in DlValues}
         \cup {Single("subpopt", v) : v \in SubChoices} \cup {Single("subflag", "true")}
+        \cup {Single("level", v) : v \in LevelUniverse}
 FullAlphabet ==
     {Ev("Setup", D, None, NoEdit, TRUE) : D \in AllD} \cup {Ev("Configure", D, None, NoEdit, TRUE) : D \in AllD \ {Empty}}
     \cup {Ev("Reconfigure", D, None, NoEdit, TRUE) : D \in AllD}
@@ -144,23 +160,25 @@ FullAlphabet ==
     \cup {Ev("Wipe", Empty, None, NoEdit, TRUE)} \cup {Ev("Edit", Empty, None, e, TRUE) : e \in Edits}
     \cup {Ev("SetupFail", Empty, None, NoEdit, FALSE)}
     \cup {Ev("ConfigureFail", D, None, NoEdit, FALSE) : D \in {Single("dl", "static"), Single("subdl", "both")}}
+    \cup {Ev("ConfigureBad", Single("level", v), None, NoEdit, FALSE) : v \in LevelUniverse}
     \cup {Ev("ReconfigureFail", D, None, NoEdit, FALSE) : D \in {Empty, Single("popt", "b"), Single("dl", "both")}}
 
 \* the smaller alphabet whose histories are all replayed through the real CLI
 ReplayAlphabet ==
-    {Ev("Setup", D, None, NoEdit, TRUE) : D \in {Empty, Single("popt", "b"), Single("popt", "c"), Single("subdl", "static"), Single("subpopt", "a")}}
+    {Ev("Setup", D, None, NoEdit, TRUE) : D \in {Empty, Single("popt", "b"), Single("popt", "c"), Single("subdl", "static"), Single("subpopt", "a"), Single("level", "2")}}
     \cup {Ev("Configure", D, None, NoEdit, TRUE) :
             D \in {Single("popt", "c"), Single("dl", "both"), Single("subdl", "static"), Single("subdl", "shared"),
-                   Single("subpopt", "d"), Single("subpopt", "b"), Single("xopt", "xv"), Single("subflag", "true")}}
+                   Single("subpopt", "d"), Single("xopt", "xv"), Single("subflag", "true"), Single("level", "8")}}
     \cup {Ev("Reconfigure", D, None, NoEdit, TRUE) : D \in {Empty, Single("popt", "a")}}
     \cup {Ev("ConfigureU", Empty, k, NoEdit, TRUE) : k \in {"subdl", "subpopt", "subflag"}}
     \cup {Ev("Wipe", Empty, None, NoEdit, TRUE)}
     \cup {Ev("Edit", Empty, None, e, TRUE) :
             e \in { [t |-> "addx", ch |-> {}, def |-> None], [t |-> "removex", ch |-> {}, def |-> None],
-                    [t |-> "choices", ch |-> {"a", "b"}, def |-> "a"], [t |-> "choices", ch |-> {"a", "b", "c"}, def |-> "a"],
-                    [t |-> "default", ch |-> {}, def |-> "b"] }}
+                    [t |-> "choices", ch |-> {"a", "b"}, def |-> "a"], [t |-> "default", ch |-> {}, def |-> "b"],
+                    [t |-> "range", ch |-> {"5", "8"}, def |-> None], [t |-> "range", ch |-> {"2", "5"}, def |-> None] }}
     \cup {Ev("SetupFail", Empty, None, NoEdit, FALSE)}
     \cup {Ev("ConfigureFail", Single("dl", "static"), None, NoEdit, FALSE)}
+    \cup {Ev("ConfigureBad", Single("level", v), None, NoEdit, FALSE) : v \in {"2", "8"}}
     \cup {Ev("ReconfigureFail", Single("popt", "b"), None, NoEdit, FALSE)}
 
 \* ---- declarative reading of a history --------------------------------------------------
